@@ -378,3 +378,14 @@ func XorCmp(a, b, target [20]byte) int {
 var _ = krpc.ID{}
 
 func (r *Run) ctx() context.Context { return context.Background() }
+
+// AdvanceTo moves fake time to t, letting the system run whenever something
+// happens on the way.
+func (r *Run) AdvanceTo(t time.Time) {
+	for time.Until(t) > 0 && !r.Failed() {
+		r.Sleep(time.Until(t))
+		r.Settle()
+	}
+}
+
+func (r *Run) Advance(d time.Duration) { r.AdvanceTo(time.Now().Add(d)) }
